@@ -14,7 +14,7 @@ pub struct C07P;
 pub static C07: C07P = C07P;
 
 fn plan(tier: Tier) -> TextPlan {
-    gen::plan(tier, 1.5)
+    gen::plan(tier, tier.pick(1.0, 1.5))
 }
 
 pub fn check_input(info: &mut CaseInfo, input: &str) -> CheckResult {
